@@ -1260,7 +1260,7 @@ def run(rep, tier):
             heads = [h for l in cx["chain"] for h in l.heads]
             rep.ob("R16.3", "abi.rs: Instruction::Malloc is built only in Generator::call under LowerArgsLiftResults > GuestExport",
                    fnq(cx) == "Generator::call" and "LiftLower::LowerArgsLiftResults" in heads and
-                   cx["chain"][-1].heads == ["AbiVariant::GuestExport"], f"in {fnq(cx)} under {heads}", f"{ABI}:{synq.line(n)}")
+                   set(cx["chain"][-1].heads) == {"AbiVariant::GuestExport"}, f"in {fnq(cx)} under {heads}", f"{ABI}:{synq.line(n)}")
         # DropHandle: only under an arm guarded by what.handles(); ListsAndOwn only from deallocate_lists_and_own_in_types
         ds = find_nodes(ABI, lambda n: n.get("k") in ("struct", "path") and synq.short(n.get("path", "")) == "DropHandle"
                         and n.get("k") == "struct")
@@ -1280,9 +1280,9 @@ def run(rep, tier):
         hs = []
         for cx, n in find_nodes(ABI, lambda n: n.get("k") == "mcall" and n["method"] == "deallocate" and render(n["recv"]) == "self"):
             if fnq(cx) == "Generator::deallocate_indirect":
-                hs.append("|".join(cx["chain"][-1].heads))
+                hs += cx["chain"][-1].heads  # alternatives of an or-pattern arm count one by one
         rep.ob("R16.3", "abi.rs: deallocate_indirect calls deallocate only for Type::String, TypeDefKind::List, TypeDefKind::Map",
-               di is not None and sorted(hs) == ["Type::String", "TypeDefKind::List", "TypeDefKind::Map"], f"{sorted(hs)}", ABI)
+               di is not None and set(hs) == {"Type::String", "TypeDefKind::List", "TypeDefKind::Map"}, f"{sorted(set(hs))}", ABI)
     rep.guard("R16.3", "gated emitters", gated)
 
     def receivable(b, v):
